@@ -4,6 +4,9 @@
 // returned. The harness runs it under the sysstop supervisor and kills it at a
 // chosen system call.
 //
+// Query operations (recent / today / find) print "READ <i> <json>" instead; with
+// "markers" every operation is preceded by a stat of <data>/.op<i> (C06 held-reader stage).
+//
 // usage: recorder <script.json>
 package main
 
@@ -29,6 +32,7 @@ type Op struct {
 	Status json.RawMessage `json:"status,omitempty"`
 	Name   string          `json:"name,omitempty"`
 	Text   string          `json:"text,omitempty"`
+	N      int             `json:"n,omitempty"`
 }
 
 // Script is the recorder's input.
@@ -36,6 +40,7 @@ type Script struct {
 	Data        string `json:"data"`
 	DAGs        string `json:"dags"`
 	LatestToday bool   `json:"latestToday"`
+	Markers     bool   `json:"markers,omitempty"`
 	Ops         []Op   `json:"ops"`
 }
 
@@ -63,7 +68,39 @@ func main() {
 				os.Exit(2)
 			}
 		}
+		if sc.Markers {
+			// a stat under the data prefix that delimits the operations in the supervisor's call log
+			_, _ = os.Stat(fmt.Sprintf("%s/.op%d", sc.Data, i))
+		}
 		switch op.Kind {
+		case "recent", "today", "find":
+			// queries: "READ <i> <json array of the returned statuses>"
+			var out []json.RawMessage
+			add := func(st *model.Status) {
+				if st != nil {
+					b, _ := st.ToJSON()
+					out = append(out, b)
+				}
+			}
+			switch op.Kind {
+			case "recent":
+				for _, sf := range db.ReadStatusRecent(op.Dag, op.N) {
+					add(sf.Status)
+				}
+			case "today":
+				st, e := db.ReadStatusToday(op.Dag)
+				if e == nil {
+					add(st)
+				}
+			case "find":
+				sf, e := db.FindByRequestID(op.Dag, op.Req)
+				if e == nil && sf != nil {
+					add(sf.Status)
+				}
+			}
+			b, _ := json.Marshal(out)
+			os.Stdout.WriteString(fmt.Sprintf("READ %d %s\n", i, b))
+			continue
 		case "open":
 			err = db.Open(op.Dag, time.UnixMilli(op.TimeMS), op.Req)
 		case "write":
